@@ -47,7 +47,7 @@ def Series(params: SeriesParams) -> h.Module:
     # Copy the unit-cell ports, Signal and Bundle valued
     from .instantiable import io
 
-    for p in io(params.unit).values():
+    for p in _unit_io(params.unit).values():
         m.add(deepcopy(p))
 
     # Divy up the ports by series vs parallel connections
@@ -65,6 +65,13 @@ def Series(params: SeriesParams) -> h.Module:
 
     # And return the module
     return m
+
+
+def _unit_io(unit: h.Instantiable) -> dict:
+    # The ports a new parent sees on `unit`: for an already-elaborated Module, those from before its Bundles were flattened.
+    from .elab.passes.portrefs import io_for_resolving
+
+    return io_for_resolving(unit)
 
 
 def _unused_name(name: str, m: h.Module) -> str:
@@ -134,7 +141,7 @@ def Wrapper(m: h.Instantiable) -> h.Module:
 
     # Copy the inner-cell ports
     # Note this also serves as the connections-dict to the inner instance
-    wrapper_io = {p.name: wrapper.add(deepcopy(p)) for p in io(m).values()}
+    wrapper_io = {p.name: wrapper.add(deepcopy(p)) for p in _unit_io(m).values()}
 
     # Create the inner instance
     wrapper.add(h.Instance(name=_unused_name("inner", wrapper), of=m)(**wrapper_io))
